@@ -316,3 +316,5 @@ func structOfType(t types.Type) *types.Struct {
 	st, _ := t.Underlying().(*types.Struct)
 	return st
 }
+
+func typesPointer(tn *ssa.Type) types.Type { return types.NewPointer(tn.Type()) }
